@@ -140,6 +140,15 @@
 #define CNL_BUILTIN_OVERFLOW_SUPPORTED_BY_TOOLCHAIN
 #endif
 
+#if defined(JOHNMCFARLANE_CNL_VERIF) && defined(JOHNMCFARLANE_CNL_VERIF_OVERFLOW_PATH)
+// verification hook: choose the overflow-detection path independently of the compiler
+// (0 = portable is_overflow<> predicates, 1 = __builtin_*_overflow intrinsics)
+#undef CNL_BUILTIN_OVERFLOW_SUPPORTED_BY_TOOLCHAIN
+#if JOHNMCFARLANE_CNL_VERIF_OVERFLOW_PATH
+#define CNL_BUILTIN_OVERFLOW_SUPPORTED_BY_TOOLCHAIN
+#endif
+#endif
+
 #if defined(CNL_BUILTIN_OVERFLOW_SUPPORTED_BY_TOOLCHAIN)
 #define CNL_BUILTIN_OVERFLOW_ENABLED
 #endif
